@@ -216,6 +216,40 @@ func runC11(c *Ctx) {
 			}
 			core, pc = after, int(q[0])
 		}
+		// (d) the same K steps once more on ONE simulator (the steps above each start a fresh one): what an earlier
+		// step left inside the simulator must not carry a later store beyond its own window
+		if sc.K > 1 && m <= 4096 {
+			var s g.Simulator
+			var w g.Warrior
+			var err error
+			if p, msg := try(func() { s, w, err = newStepSim(sc, sc.Core, sc.PC) }); p || err != nil {
+				c.Violate("C11:panic:"+panicSite(msg), fmt.Sprintf("%v %s", err, msg), sc.describe())
+				return
+			}
+			prev := append([]mars.Insn(nil), sc.Core...)
+			for step := 0; step < sc.K; step++ {
+				at, e := w.NextPC()
+				if e != nil {
+					break
+				}
+				if p, msg := try(func() { s.RunCycle() }); p {
+					c.Violate("C11:panic:"+panicSite(msg), msg, sc.describe())
+					return
+				}
+				after := readCore(s, m)
+				for a := 0; a < m; a++ {
+					if after[a] != prev[a] {
+						if d := circDist(a, int(at), m); d > wl/2 {
+							c.Violate("C11:write-too-far", fmt.Sprintf("step %d of a run on one simulator: executing %s at %d with write limit %d changed cell %d at circular distance %d > %d",
+								step, insnStr(prev[at]), at, wl, a, d, wl/2), sc.describe())
+							return
+						}
+					}
+				}
+				prev = after
+				c.Inc("steps_on_one_simulator")
+			}
+		}
 		c.Inc("limit_class_" + lc)
 		if idx%977 == 0 {
 			c.Sample(sc.describe())
